@@ -48,6 +48,7 @@ type Contract struct {
 	Lemmas   []*Clause
 	NoInline bool
 	Inline   bool // callers execute the body instead of using the contract
+	Steps    map[int][]*Clause // loop ordinal → two-state clauses checked at back edges
 }
 
 type ghostDecl struct {
@@ -210,6 +211,18 @@ func (w *World) parseContractLines(sp *ssa.Package, lines, poss []string) error 
 			tail = strings.TrimSpace(rest[strings.Index(rest, " ")+1:])
 			if strings.HasPrefix(tail, "terminates_by") {
 				cur.Terminates[ord] = strings.TrimSpace(strings.TrimPrefix(tail, "terminates_by"))
+				continue
+			}
+			if strings.HasPrefix(tail, "step") {
+				// two-state clause checked at every back edge: iter(e) is e at the start of the iteration
+				cl, err := parseClause("invariant"+strings.TrimPrefix(tail, "step"), pos)
+				if err != nil {
+					return err
+				}
+				if cur.Steps == nil {
+					cur.Steps = map[int][]*Clause{}
+				}
+				cur.Steps[ord] = append(cur.Steps[ord], cl)
 				continue
 			}
 			cl, err := parseClause(tail, pos)
